@@ -11,6 +11,8 @@ PROP = {  # commit subject keyword -> property the defect was a violation of
  'convert_array()': 'C17', 'BIT computed X axis': 'C13', 'XmlStream.comment()': 'C18', 'column named MNEM': 'C08',
  'empty text cell': 'C08', 'stored in the wrong channel': 'C09', "refused with 'array overflow'": 'C09',
  'replaced by -999.25': 'C09', 'representation code 70': 'C07',
+ 'selects no frame': 'C11', 'no separator when a value fills': 'C11', 'not preceded by a CONS': 'C11',
+ 'channel subset raised TypeError': 'C11',
 }
 log = subprocess.run(['git', '-C', '/repo', 'log', '--reverse', '--format=%h|%s'], capture_output=True, text=True).stdout
 fixed = []
